@@ -156,6 +156,10 @@ class CG:
                 tys2[i] = r.choice(alt)
                 funcs.append(self.callee(name, list(zip(pnames, tys2)), ret, [g for g in funcs if g.name != name]))
                 self.hit('overload-same-names')
+                if r.random() < .35:
+                    # ONE member of the family is exported (two exported functions of one name are rejected): it is called by
+                    # its raw name, its sibling by the mangled one; the ranking must not prefer either for that reason
+                    r.choice(funcs[-2:]).exported = True; self.hit('overload-one-member-exported')
         if r.random() < .5:
             # overloads that differ in ARITY: name(a) / name(a, extra float) — the second is also called with an int as extra
             # argument (implicit conversion), which must not make the shorter overload win
@@ -274,6 +278,26 @@ class HG:
             body = Block([ExprS(Assign(tgt, Bin('+', tgt, pv))), Return(tgt)])
             helpers.append((Func(self.fresh("bump"), [(pn, tgt.ty)], tgt.ty, body, False), tgt))
             funcs.append(helpers[-1][0]); self.hit('helper-writes-global')
+        # wrappers that do not write the global themselves but call a helper that does (the write happens two calls deep)
+        for h, tgt in list(helpers):
+            if r.random() < .6:
+                pn = self.fresh("q"); pv = Var(pn, tgt.ty, 'arg', 0)
+                w = Func(self.fresh("wrap"), [(pn, tgt.ty)], tgt.ty, Block([Return(Call(h, [pv]))]), False)
+                helpers.append((w, tgt)); funcs.append(w); self.hit('wrapper-of-a-writing-helper')
+        # void functions that end without a `return`: an internal one and exported setters
+        vhelper = None
+        if self.o.get('voids', True) and scal and r.random() < .6:
+            tgt = r.choice(scal); pn = self.fresh("q"); pv = Var(pn, tgt.ty, 'arg', 0)
+            vhelper = Func(self.fresh("put"), [(pn, tgt.ty)], VOID, Block([ExprS(Assign(tgt, Bin('+', tgt, pv)))]), False)
+            funcs.append(vhelper); self.hit('void-helper-without-return')
+        self.setters = []
+        if self.o.get('voids', True) and scal and (r.random() < .6 or self.o.get('long')):
+            for _ in range(r.randint(1, 2)):
+                tgt = r.choice(scal); pn = self.fresh("p"); pv = Var(pn, tgt.ty, 'arg', 0)
+                ss = [ExprS(Assign(tgt, pv))]
+                if vhelper is not None and r.random() < .5: ss.append(ExprS(Call(vhelper, [_lit(r, vhelper.params[0][1])])))
+                f = Func(self.fresh("set"), [(pn, tgt.ty)], VOID, Block(ss), True)
+                self.setters.append(f); self.hit('exported-void-setter-without-return')
         for k in range(r.randint(2, 4)):
             params = [(self.fresh("p"), r.choice([INT, FLOAT])) for _ in range(r.randint(0, 2))]
             vars_ = [Var(n, t, 'arg', i) for i, (n, t) in enumerate(params)]
@@ -315,11 +339,14 @@ class HG:
                 ss.append(ExprS(Call(h, [_lit(r, tgt.ty)])))
                 ss.append(ExprS(Assign(tgt, Bin('+', tgt, _lit(r, tgt.ty)))))
                 self.hit('store-call-load')
+            if vhelper is not None and r.random() < .4:
+                ss.append(ExprS(Call(vhelper, [_lit(r, vhelper.params[0][1])]))); self.hit('call-of-void-helper')
             rs = [v for v in vars_ if v.ty == ret] + places(ret) + ([loc] if ret == INT else [])
             res = r.choice(rs) if rs else _lit(r, ret)
             if ret == INT: res = Bin('+', res, loc)
             ss.append(Return(res))
             funcs.append(Func(self.fresh("f"), params, ret, Block(ss), True))
+        funcs += self.setters
         return Module(structs, globals_, funcs)
 
 
@@ -336,9 +363,14 @@ def make_history(rng, opts):
     for i, n, t in sets:
         ops.append(('set', i, n, gen.gen_value(rng, t)))
     exported = [f for f in m.funcs if f.exported]
-    for _ in range(rng.randint(5, 40)):
-        i = rng.randrange(nvms)
+    long_ = bool(opts and opts.get('long'))
+    if long_: g.hit('long-history')
+    for _ in range(rng.randint(5, 40) if not long_ else rng.randint(450, 700)):
+        i = rng.randrange(nvms) if not long_ else (0 if rng.random() < .9 else rng.randrange(nvms))
         k = rng.random()
+        if long_ and g.setters and k < .5:
+            f = rng.choice(g.setters)
+            ops.append(('invoke', i, f.name, [gen.gen_value(rng, t) for _, t in f.params])); g.hit('op-invoke'); continue
         if k < .55:
             f = rng.choice(exported)
             ops.append(('invoke', i, f.name, [gen.gen_value(rng, t) for _, t in f.params])); g.hit('op-invoke')
